@@ -10,8 +10,8 @@ import (
 
 func init() {
 	register(&PropMeta{
-		ID:    "C16",
-		Level: "other",
+		ID:          "C16",
+		Level:       "other",
 		Explanation: "Decides, independently of any schedule, the locking discipline the statement relies on: (R1) every function that takes the engine mutex takes it as its first action and releases it only by defer, and every exported engine method that reaches a membership write, a seat-manager assign/remove or a hand single action is such a function; (R2) the engine mutex is must-held (inter-procedural must-hold lockset over synchronous call edges, same receiver instance) at each of those writes/calls; (R3) every seat-map update, occupant-field store and seat-id / init-flag store in the seat manager is under the seat manager's write lock, and every function taking that lock uses Lock/defer Unlock; (R4) no function reachable synchronously on the same instance while a mutex is held re-acquires it. NOT decided: linearizability of the resulting histories; races with the settlement goroutine and unlocked seat-manager readers (outside the statement).",
 		Rules: map[string]string{
 			"R1": "entry-lock idiom (Lock first, defer Unlock, no explicit Unlock) for every engine-mutex taker; exported methods reaching guarded sites are takers",
